@@ -21,11 +21,9 @@ def mentions(node):
 
 
 def guards_of(cfg, cfgnode, include_loops=False):
-    """Atoms (from cond nodes, with outcome) that the node is transitively control dependent on."""
+    """Atoms (cond nodes with outcome) that guard the node: the cond dominates it and only that outcome leads to it."""
     out = []
-    for (b, lab) in cfg.control_closure(cfgnode):
-        if cfg.kind(b) != "cond" or lab not in (True, False):
-            continue
+    for (b, lab) in cfg.dominating_guards(cfgnode):
         out.append((b, atom_of(cfg.ast_of(b), lab)))
     return out
 
